@@ -64,6 +64,13 @@ func sxCalQuery(q *caldav.CalendarQuery) string {
 }
 
 func emitCalEnc(o *Out, q *caldav.CalendarQuery) {
+	// the caller's value is described BEFORE the call and handed to the client twice: a call must not alter it
+	args := sxCalQuery(q)
+	emitCalEncOnce(o, q, args)
+	emitCalEncOnce(o, q, args)
+}
+
+func emitCalEncOnce(o *Out, q *caldav.CalendarQuery, args string) {
 	cc := &captureClient{}
 	res := guard(func() string {
 		c, err := caldav.NewClient(cc, "http://example.com/dav/")
@@ -84,7 +91,7 @@ func emitCalEnc(o *Out, q *caldav.CalendarQuery) {
 		return sxNode(t)
 	})
 	o.Stat("calenc." + strings.Fields(res + " x")[0][:1])
-	o.Emit("cal.enc", sxCalQuery(q), res)
+	o.Emit("cal.enc", args, res)
 }
 
 func fmtCalTime(t time.Time) string {
@@ -251,6 +258,9 @@ func calQueryDoc(r *RNG, q *caldav.CalendarQuery, mut string) *wEl {
 		cd.children[0].ns = "DAV:"
 	case "wrong-dataprop-ns":
 		cd.children[0].children = []*wEl{E("DAV:", "prop").A("name", "UID")}
+	case "nocomp-expand":
+		// calendar-data that asks for expansion of the whole object: no comp child (RFC 4791 9.6: comp is optional)
+		cd.children = []*wEl{E(nsCal, "expand").A("start", "20240101T000000Z").A("end", "20240201T000000Z")}
 	case "no-filter":
 		root.children = root.children[:1]
 	case "no-prop":
@@ -306,6 +316,25 @@ func sxCalMultiGet(c *caldav.CalendarCompRequest, paths []string) string {
 }
 
 func emitCalMg(o *Out, r *RNG, reqPath string, mg *caldav.CalendarMultiGet) {
+	// the caller's value is described BEFORE the call; the same value is then used for a second call on another path
+	args := sxCalMultiGet(&mg.CompRequest, mg.Paths)
+	defer func() {
+		cc2 := &captureClient{}
+		other := reqPath + "other/"
+		res := guard(func() string {
+			c, _ := caldav.NewClient(cc2, "http://example.com/")
+			c.MultiGetCalendar(context.Background(), other, mg)
+			if cc2.body == nil {
+				return "err"
+			}
+			t, err := treeOfBytes(cc2.body)
+			if err != nil {
+				return "not-well-formed"
+			}
+			return sxNode(t)
+		})
+		o.Emit("cal.encmg", hx(other)+" "+args, res)
+	}()
 	cc := &captureClient{}
 	res := guard(func() string {
 		c, _ := caldav.NewClient(cc, "http://example.com/")
@@ -319,7 +348,7 @@ func emitCalMg(o *Out, r *RNG, reqPath string, mg *caldav.CalendarMultiGet) {
 		}
 		return sxNode(t)
 	})
-	o.Emit("cal.encmg", hx(reqPath)+" "+sxCalMultiGet(&mg.CompRequest, mg.Paths), res)
+	o.Emit("cal.encmg", hx(reqPath)+" "+args, res)
 	// wire -> backend with an independently written RFC document (prop first, then hrefs)
 	root := E(nsCal, "calendar-multiget")
 	root.Add(E("DAV:", "prop", E("DAV:", "getetag"), calDataEl(&mg.CompRequest, false)))
@@ -514,7 +543,7 @@ func famCalWire(o *Out, r *RNG, thorough bool) {
 		"comp-ind-with-range", "comp-ind-with-prop", "comp-ind-with-comp", "prop-ind-with-match", "prop-ind-with-range", "prop-ind-with-param",
 		"param-ind-with-match", "allprop-and-prop", "allcomp-and-comp", "wrong-root", "wrong-root-ns", "wrong-filter-ns", "wrong-compfilter-ns",
 		"wrong-nested-ns", "wrong-comp-ns", "wrong-dataprop-ns", "no-filter", "no-prop", "dav-allprop", "dav-propname", "no-calendar-data",
-		"empty-calendar-data", "two-time-ranges", "two-filters"}
+		"empty-calendar-data", "empty-calendar-data", "nocomp-expand", "nocomp-expand", "two-time-ranges", "two-filters"}
 	for i := 0; i < n; i++ {
 		emitCalEnc(o, randCalQuery(r, i%8 != 0))
 		qd := randCalQuery(r, true)
